@@ -45,7 +45,7 @@ var (
 )
 
 func TestMain(m *testing.M) {
-	rec.Rule("cases = (a) harness-built third-party-style SignedData (unsorted signed attributes, extra attributes, several certificates/CRLs in any order, 1-3 SignerInfos, RSA PKCS#1 / RSA-PSS / ECDSA, NULL vs absent digest parameters, nested PKCS#9 countersignatures and RFC 3161 tokens, attached/detached data and non-data content) passed through pkcs7.Unmarshal -> Marshal / Detach / timestamp embedding; (b) harness-TSA tokens in many option combinations through Unmarshal -> Marshal and embedding; (c) the PKCS#7 inside relic's own PE, MSI, PowerShell, JAR and catalog outputs for drawn key and digest; oracle = every signed region located by an independent DER walker is byte-identical before/after and all signatures (incl. nested ones) still verify with Go crypto (OpenSSL for a sample); relic outputs carry content-type and message-digest exactly once, consistent with the content, and the signature covers exactly the emitted SET OF bytes; non-trivial = value with >= 3 encoding-quirk classes or a nested token/countersignature; distinct = sha256 of the DER + operation")
+	rec.Rule("cases = (a) harness-built third-party-style SignedData (unsorted signed attributes, extra attributes, several certificates/CRLs in any order, 1-3 SignerInfos, RSA PKCS#1 / RSA-PSS / ECDSA, NULL vs absent digest parameters, nested PKCS#9 countersignatures and RFC 3161 tokens, attached/detached data and non-data content) passed through pkcs7.Unmarshal -> Marshal / Detach / timestamp embedding; (b) harness-TSA tokens in many option combinations through Unmarshal -> Marshal and embedding; (c) the PKCS#7 inside relic's own PE, MSI, PowerShell, JAR and catalog outputs for drawn key and digest; oracle = every signed region located by an independent DER walker is byte-identical before/after and all signatures (incl. nested ones) still verify with Go crypto (OpenSSL for a sample); relic outputs carry content-type and message-digest exactly once, consistent with the content, and the signature covers exactly the emitted SET OF bytes; defective tokens handed to TimestampAndMarshal by a scripted Timestamper: refused, or the emitted token passes the independent token verifier; non-trivial = value with >= 3 encoding-quirk classes or a nested token/countersignature; distinct = sha256 of the DER + operation")
 	rec.Assume("BER framing and subjectKeyIdentifier signer ids are not fed to relic (its parser refuses them explicitly); RSA-PSS values are round-tripped but relic's own verifier is not asked to accept them")
 	var err error
 	workDir, err = os.MkdirTemp("", "c16-")
